@@ -26,6 +26,7 @@ const (
 	kSource   // xv = source(site)
 	kClean    // xv = "c"
 	kNop
+	kNorm // xv, _ = norm(xw): the data goes THROUGH a validator (which returns its argument and a verdict)
 )
 
 // condition kinds (on variable V unless opaque)
@@ -56,6 +57,8 @@ const (
 	cNotErrNe       // !(check(x) != nil)
 	cValConcat      // validate(x + "")  (validates other data)
 	cIface          // vi.Validate(x) through an interface (invoke mode)
+	cNormErrNe      // _, e := norm(x); e != nil
+	cNormErrEq      // _, e := norm(x); e == nil
 	nCondKinds
 )
 
@@ -126,8 +129,10 @@ func (g *caseGen) leaf(inLoop bool) cstmt {
 			return cstmt{Kind: kConcat, V: g.r.Intn(nVars), W: g.r.Intn(nVars)}
 		case p < 88:
 			return cstmt{Kind: kSource, V: g.r.Intn(nVars), Site: g.site()}
-		case p < 93:
+		case p < 92:
 			return cstmt{Kind: kClean, V: g.r.Intn(nVars)}
+		case p < 96:
+			return cstmt{Kind: kNorm, V: g.r.Intn(nVars), W: g.r.Intn(nVars)}
 		default:
 			return cstmt{Kind: kNop}
 		}
@@ -261,6 +266,12 @@ func (r *crender) condExpr(c cond) (string, string) {
 		return "", "validate(" + x + " + \"\")"
 	case cIface:
 		return "", "vi.Validate(" + x + ")"
+	case cNormErrNe:
+		e := r.fresh("e")
+		return "_, " + e + " := norm(" + x + ")", e + " != nil"
+	case cNormErrEq:
+		e := r.fresh("e")
+		return "_, " + e + " := norm(" + x + ")", e + " == nil"
 	}
 	panic("cond kind")
 }
@@ -318,6 +329,8 @@ func (r *crender) body(b []cstmt, ind int) {
 			fmt.Fprintf(&r.sb, "%sx%d = \"c\"\n", tab, s.V)
 		case kNop:
 			fmt.Fprintf(&r.sb, "%snop()\n", tab)
+		case kNorm:
+			fmt.Fprintf(&r.sb, "%sx%d, _ = norm(x%d)\n", tab, s.V, s.W)
 		}
 	}
 }
@@ -517,6 +530,11 @@ func check4(s string) (error, bool) {
 //go:noinline
 func other(s string) bool { return c() }
 
+// norm: a validator that returns its argument together with the verdict.
+//
+//go:noinline
+func norm(s string) (string, error) { return s, check(s) }
+
 type validator interface{ Validate(s string) bool }
 
 type realValidator struct{}
@@ -633,6 +651,9 @@ func check4(s string) (error, bool) { return check(s), c() }
 
 //go:noinline
 func other(s string) bool { return c() }
+
+//go:noinline
+func norm(s string) (string, error) { return s, check(s) }
 
 type validator interface{ Validate(s string) bool }
 
